@@ -9,7 +9,7 @@ untouched remainder.  Floats are arbitrary 64-bit patterns, so "all finite float
 (and more) is covered.  The model's bytes are compared byte for byte with the implementation's on every
 run.
 PARTIAL (DESIGN.md "C16 partial"): the JSON text layer (serde_json, ryu), the tagged entry point,
-Cal/UnionCal (hash-ordered bytes), the Curve decoder and "answers every query identically" are
+Cal/UnionCal (hash-ordered bytes) and "answers every query identically" are
 validated by model-free round trips on the real code (they exposed a genuine defect, since repaired),
 not by theorems.
 -/
@@ -45,6 +45,11 @@ theorem C16_bincode_fxrates (f : SFXRates) (h : ValidFXRates f) (rest : Bytes) :
 /-- a named calendar is stored by name only -/
 theorem C16_bincode_named_cal (name : Bytes) (h : name.length < 2 ^ 64) (rest : Bytes) :
     decNamedCal (encNamedCal name ++ rest) = some (name, rest) := lawful_str name h rest
+
+/-- a curve with a named calendar: typed node map (all nodes of the map's kind), interpolator, id,
+convention, modifier, optional index base, calendar name -/
+theorem C16_bincode_curve (c : SCurve) (h : ValidCurve c) (rest : Bytes) :
+    decCurve (encCurve c ++ rest) = some (c, rest) := lawful_curve c h rest
 
 /-! Non-vacuity: the bytes observed for `Dual(2.5, [x, yy], [1.0, -0.5])`. -/
 example : encDual ⟨0x4004000000000000, [[0x78], [0x79, 0x79]], ⟨2, [0x3ff0000000000000, 0xbfe0000000000000]⟩⟩
